@@ -282,9 +282,16 @@ func NewMessageDef(name, msgType string, parts []MessagePart) *MessageDef {
 		switch pType := part.(type) {
 		case messagePartWithFields:
 			for _, f := range pType.Fields() {
-				// Field if required in component is required in message only if
-				// component is required.
-				processField(f, pType.Required())
+				processField(f, false)
+			}
+
+			// Field if required in component is required in message only if
+			// component is required; the component's own RequiredFields already
+			// leave out the fields of its optional sub-components.
+			if pType.Required() {
+				for _, f := range pType.RequiredFields() {
+					msg.RequiredTags.Add(f.Tag())
+				}
 			}
 
 		case *FieldDef:
